@@ -126,6 +126,52 @@ fn monotone(ctx: &Ctx, st: &mut Stats, tcs: &[String], s: Settings, rng: &mut Rn
     }
 }
 
+/// Thresholds set while conversion is off, a build, then conversion switched on: the thresholds set
+/// earlier still apply.
+fn threshold_history(ctx: &Ctx, st: &mut Stats, tcs: &[String], m: u32, l: u32) {
+    use grex::RegExpBuilder;
+    st.evaluations += 1;
+    let got = std::panic::catch_unwind(std::panic::AssertUnwindSafe(|| {
+        let mut b = RegExpBuilder::from(tcs);
+        b.with_minimum_repetitions(m).with_minimum_substring_length(l);
+        let first = b.build();
+        b.with_conversion_of_repetitions();
+        let second = b.build();
+        let third = b.clone().build();
+        (first, second, third)
+    }));
+    let Ok((first, second, third)) = got else {
+        st.inconclusive("panic in threshold history (C07's concern)");
+        return;
+    };
+    st.decided += 1;
+    st.count("threshold_histories");
+    let s = Settings::with(REP, m, l);
+    let mut case = case_json(tcs, s);
+    case["what"] = json!("threshold_history");
+    if let Ok(r) = counted_repetitions(&first) {
+        if !r.is_empty() {
+            st.violation("braces_without_request", format!("first build (conversion off) contains {:?}", r.iter().map(|x| x.text.clone()).collect::<Vec<_>>()), case.clone());
+        }
+    }
+    for out in [&second, &third] {
+        if let Ok(reps) = counted_repetitions(out) {
+            for r in reps {
+                if r.upper.unwrap_or(u32::MAX) <= m || r.unit_chars < l as u64 {
+                    case["output"] = json!(out);
+                    st.violation(
+                        "thresholds_lost_in_history",
+                        format!("thresholds ({m},{l}) were set before conversion was enabled, but the later build contains {:?}", r.text),
+                        case.clone(),
+                    );
+                    return;
+                }
+            }
+        }
+    }
+    let _ = ctx;
+}
+
 pub fn replay(ctx: &Ctx, case: &serde_json::Value) {
     let (tcs, s) = case_from_json(case);
     let mut st = Stats::new();
@@ -181,6 +227,30 @@ pub fn run(ctx: &Ctx) -> i32 {
             s.min_rep = 1 + rng.below(8) as u32;
             s.min_len = 1 + rng.below(4) as u32;
             monotone(ctx, st, &tcs, s, &mut rng);
+        });
+    }
+    // whole test cases that are one long run (64..300 repeats) of a single grapheme or a short unit
+    {
+        let units = ["a", "-", "ab", "\u{1f4a9}", " ", "xyz", "1"];
+        let lens = [63usize, 64, 65, 80, 127, 128, 129, 200, 300];
+        par_for(&ctx.run, units.len() * lens.len() * 6, |i, st| {
+            let u = units[i % units.len()];
+            let n = lens[(i / units.len()) % lens.len()];
+            let k = i / (units.len() * lens.len());
+            let tcs = if k % 2 == 0 { vec![u.repeat(n)] } else { vec![u.repeat(n), format!("{}z", u.repeat(n / 2))] };
+            st.count("long_run_inputs");
+            let s = Settings::with(REP, [1, 2, 5][k % 3], [1, 2, 3, 4, 2, 3][k % 6]);
+            check_case(ctx, st, &tcs, s);
+        });
+    }
+    // thresholds set before conversion is enabled, with a build in between
+    {
+        let n = if ctx.thorough { 20_000 } else { 1_500 };
+        let al = gen::alphabet("ab");
+        par_for(&ctx.run, n, |i, st| {
+            let mut rng = Rng::new(seed, 0x132_0000 + i as u64);
+            let tcs = gen::repeat_family(&mut rng, &al);
+            threshold_history(ctx, st, &tcs, 1 + rng.below(4) as u32, 1 + rng.below(3) as u32);
         });
     }
     let n = if ctx.thorough { 400_000 } else { 30_000 };
